@@ -28,6 +28,12 @@ def main(tier, replay):
         for cd in ((0, 1, 2) if n in ('p1', 'p4') else (i % 3,)):
             J('intro-%s-L%d-c%d' % (n, L, cd), n, [L, -1, 1, cd, 0, 0])
         J('intro-%s-L%d-ps1' % (n, L), n, [L, 2, 1, (i + 1) % 3, 1, 0])
+    # page headers and footer of 1500 bytes (long statistics make real headers exceed 1 KiB)
+    for n in ('p1', 'p2'):
+        # 600-byte strings: natively the statistics make real page headers longer than 1 KiB as well
+        J('long-headers-%s' % n, n, [3, 1, 600 if n == 'p2' else 1, 0, 1, 0])
+        jobs[-1]['opt'].pop('stub', None)
+        jobs[-1]['opt']['hdr_len'] = 1500
     J('sens-count', 'p4', [3, 1, 1, 0, 0, 1], expect='exactly one header per data page')
     run_program_jobs(c, mod, infos, jobs, native_templates=NATIVE)
     c.programs = len(P)
